@@ -368,7 +368,7 @@ func cmdRouter(prop string, args []string) {
 	start := time.Now()
 	nProj := 24
 	if o.Tier == "thorough" {
-		nProj = 150
+		nProj = 300
 	}
 	if v := os.Getenv("VERIF_ROUTER_PROJECTS"); v != "" {
 		fmt.Sscan(v, &nProj)
